@@ -1348,16 +1348,33 @@ class Segment:
         rec["outcome"] = "ok"
         shared = op.get("share", False)
         cancelled = sch.cancelled
+        failed = sch.alloc_failed
         if cancelled:
             self.probe("fault_fired.call_cancelled", len(cancelled))
-            rec["cancelled_at"] = ", ".join("lane %d at %s" % (k, cancelled[k])
-                                            for k in sorted(cancelled))
+        if failed:
+            self.probe("fault_fired.alloc_failure", len(failed))
+        if cancelled or failed:
+            rec["cancelled_at"] = ", ".join(
+                ["lane %d at %s" % (k, cancelled[k]) for k in sorted(cancelled)] +
+                ["lane %d MemoryError at %s" % (k, failed[k]) for k in sorted(failed)])
         pairs = []
         for li, lane in enumerate(lanes):
+            hit = False
             for si, sub in enumerate(lane):
-                if li not in cancelled:
-                    pairs.append((li, si, sub, seq[li][si], conc[li][si], "interleaved"))
-                if again is not None and cancelled:
+                if li in failed and not hit and conc[li][si].get("o") == "raised" and \
+                        conc[li][si] != seq[li][si]:
+                    # the call in which the allocation failed may raise (anything); the calls
+                    # the lane makes after it may depend on what it left undone (a file not
+                    # written): they are judged when they are made again below.  A call that
+                    # *returns* is held to the sequential outcome like any other.
+                    hit = True
+                    self.probe("alloc_failure_surfaced_as_exception")
+                if li not in cancelled and not hit:
+                    pairs.append((li, si, sub, seq[li][si], conc[li][si],
+                                  "interleaved" if li not in failed else
+                                  "with a failed allocation inside it or an earlier call of the "
+                                  "lane (%s)" % rec["cancelled_at"]))
+                if again is not None and (cancelled or failed):
                     pairs.append((li, si, sub, seq[li][si], again[li][si],
                                   "after a call was cancelled (%s)" % rec["cancelled_at"]))
         for li, si, sub, a, b, how in pairs:
@@ -1396,8 +1413,11 @@ class Segment:
                     props = ["C19"] + (["C17"] if fmt == "FMMetrics" else [])
                     site = fmt + ".execute"
                     check = "conc.result_differs"
-                if how != "interleaved":
-                    check = check.replace("conc.", "cancel.")
+                if how.startswith("with a failed allocation"):
+                    check = check.replace("conc.", "allocfail.")
+                    self.probe("alloc_failure_swallowed_or_differs")
+                elif how != "interleaved":
+                    check = check.replace("conc.", "cancel." if cancelled else "allocfail.")
                 for prop in props:
                     self.fail(prop, check, site, detail, tags)
 
